@@ -158,9 +158,12 @@ def gen_hole_kw(rng, spec, next_lit):
         return typed(rng, sample_value(rng, spec))
     if r < 0.89:
         return ['v', ['s', rng.choice(['', 'a/b', '/', 'x\ny', 'A', '-', '.', 'a.b', '1-2', ' ', '0'])]]
-    if r < 0.93:
+    if r < 0.92:
+        # the same text as a literal piece of some pattern: quoted there under safe='/' (history of _segment_cache)
+        return ['v', ['s', rng.choice([x for x in LITS if x])]]
+    if r < 0.945:
         return ['v', ['i', rng.choice([0, 7, 42, -3, 2026, 10 ** 12 + 1])]]
-    if r < 0.95:
+    if r < 0.955:
         k = rng.choice([0, 1, 2, 7])
         return ['v', ['n', k, rng.choice(['%d.0' % k] + ([{0: 'False', 1: 'True'}[k]] if k in (0, 1) else []))]]
     if r < 0.97:
@@ -246,6 +249,8 @@ def gen_case(rng, separable=None):
     els = []
     if rng.random() < 0.25:
         els = [P17.gen_pval(rng, 0.04) for _ in range(rng.choice([1, 1, 2, 3]))]
+        if rng.random() < 0.3:
+            els[-1] = ['s', rng.choice([x for x in LITS if x] + ['a/b', 'x/', '/'])]
         if rng.random() < 0.4 and kw:
             # the same text as a keyword value: quoted under another safe set (history of _segment_cache)
             v = kw[0][1]
